@@ -95,11 +95,13 @@ func c19GenDoc(rng *rand.Rand) *c19Doc {
 		if present() == 1 {
 			s["group-by"] = []string{`^([a-z]+)\.`, `^([^/]+)/`}[rng.Intn(2)]
 		}
+		// (pattern lists differ from source to source, so that a list that ends up in
+		// another source's place is visible)
 		if present() == 1 {
-			s["include"] = []string{`\.dat$`, `^keep/`}[:1+rng.Intn(2)]
+			s["include"] = []string{fmt.Sprintf(`\.dat%d$`, i), `^keep/`, fmt.Sprintf(`^in%d/`, i)}[:1+rng.Intn(3)]
 		}
 		if present() == 1 {
-			s["ignore"] = []string{`\.tmp$`, `^skip/`}[:1+rng.Intn(2)]
+			s["ignore"] = []string{fmt.Sprintf(`\.tmp%d$`, i), fmt.Sprintf(`^skip%d/`, i), `~$`}[:1+rng.Intn(3)]
 		}
 		switch present() {
 		case 1:
@@ -518,6 +520,29 @@ func c19One(c *Ctx, idx int, rng *rand.Rand, sc *c19Scenario, dir string) {
 		if err != nil {
 			viol("re-encoding", "marshal-error", err.Error())
 		} else {
+			// encoding must not change the configuration it encodes (the running program
+			// keeps using the object, and encodes it again for the next request)
+			actAfter := c19Actual(cy.Client)
+			for i := range actY {
+				if i >= len(actAfter) {
+					break
+				}
+				for k, v := range actY[i].Src {
+					if actAfter[i].Src[k] != v {
+						viol("re-encoding", "marshal-changed-source-option/"+k, fmt.Sprintf("source %d option %s was %q; after json.Marshal of the configuration the same object says %q", i, k, v, actAfter[i].Src[k]))
+					}
+				}
+				for j := range actY[i].Tags {
+					if j >= len(actAfter[i].Tags) {
+						break
+					}
+					for k, v := range actY[i].Tags[j] {
+						if actAfter[i].Tags[j][k] != v {
+							viol("re-encoding", "marshal-changed-tag-option/"+k, fmt.Sprintf("source %d tag %d option %s was %q; after json.Marshal the same object says %q", i, j, k, v, actAfter[i].Tags[j][k]))
+						}
+					}
+				}
+			}
 			back := &sts.ClientConf{}
 			if err := json.Unmarshal(enc, back); err != nil {
 				viol("re-encoding", "re-parse-error", fmt.Sprintf("the parser rejects its own JSON encoding: %v", err))
